@@ -246,7 +246,7 @@ func verifC09ScriptedStaleCancel(t *testing.T, blocked bool) {
 	}
 	s.invariant()
 	s.execBlock(verifSBBlock{verifC09Bump(), verifC09Tx(verifSBOp{Kind: "remove", Addr: 2})}, "block") // T
-	s.execBlock(verifSBBlock{verifC09Bump()}, "block")                                                   // U
+	s.execBlock(verifSBBlock{verifC09Bump()}, "block")                                                 // U
 	s.doRollback()
 	s.invariant()
 	s.execBlock(verifSBBlock{verifC09Bump(), verifC09Tx(verifSBOp{Kind: "create", Addr: 2, Content: a2.clone()})}, "block") // V
